@@ -574,3 +574,48 @@ Proof. vm_compute. repeat split; reflexivity. Qed.
 
 Lemma w_bytes_ok : wfo w_basket = true /\ read_bytes (write_bytes w_basket) = Ok (strip w_basket).
 Proof. vm_compute. split; reflexivity. Qed.
+(* ---- the sniffer accepts the written BYTES (no trusted text head any more) --------------------------------------------------- *)
+Lemma esc_plain c : plain_char c = true -> esc_char c = [c].
+Proof. destruct c; intros H; try discriminate H; reflexivity. Qed.
+Lemma flat_plain s : forallb plain_char s = true -> flat_map esc_char s = s.
+Proof.
+  induction s as [|c s IH]; [reflexivity|]. cbn [forallb flat_map]. intros H. apply andb_prop in H. destruct H as [H1 H2].
+  rewrite (esc_plain c H1), (IH H2). reflexivity.
+Qed.
+Lemma print_head_is_text_head k v kv : forallb plain_char k = true -> forallb plain_char v = true ->
+  exists rest, print (JObj ((k, JStr v) :: kv)) = text_head (JObj ((k, JStr v) :: kv)) ++ rest.
+Proof.
+  intros Hk Hv. cbn [text_head]. rewrite Hk, Hv. cbn [andb print map bracket fst snd].
+  unfold jstring. rewrite (flat_plain k Hk), (flat_plain v Hv).
+  eexists. cbn [app]. rewrite <- !app_assoc. cbn [app]. unfold KSEP. cbn [bs bytes_of_bstr app].
+  rewrite <- !app_assoc. cbn [app]. reflexivity.
+Qed.
+Theorem written_bytes_detected : forall b, is_basket b = true -> is_sjson (write_bytes b) = true.
+Proof.
+  intros b H. destruct (written_text_is_detected b [] H) as [[kv E] [NE _]]. unfold write_bytes. rewrite E in NE. rewrite E.
+  assert (P : forallb plain_char K_fmtcomment = true /\ forallb plain_char SJSON_COMMENT = true).
+  { cbn [text_head] in NE. destruct (forallb plain_char K_fmtcomment); [|cbn in NE; congruence].
+    destruct (forallb plain_char SJSON_COMMENT); [split; reflexivity|cbn in NE; congruence]. }
+  destruct P as [Pk Pv]. destruct (print_head_is_text_head K_fmtcomment SJSON_COMMENT kv Pk Pv) as [rest R].
+  destruct (written_text_is_detected b rest H) as [_ [_ S]].
+  match goal with |- is_sjson ?t = true => assert (X : t = text_head (write_sjson b) ++ rest) by (rewrite E; exact R); rewrite X end.
+  exact S.
+Qed.
+(* ---- white space around the document does not matter ------------------------------------------------------------------------ *)
+Lemma skip_ws_all pre s : forallb is_ws pre = true -> skip_ws (pre ++ s) = skip_ws s.
+Proof.
+  induction pre as [|c r IH]; [reflexivity|]. cbn [forallb app skip_ws]. intros H. apply andb_prop in H. destruct H as [H1 H2].
+  rewrite H1. apply IH. exact H2.
+Qed.
+Lemma ws_stop post : forallb is_ws post = true -> stop_ok post = true.
+Proof.
+  destruct post as [|c r]; [reflexivity|]. cbn [forallb]. intros H. apply andb_prop in H. destruct H as [H _].
+  unfold stop_ok, stopb. destruct c; try discriminate H; reflexivity.
+Qed.
+Theorem loads_padded : forall j fuel pre post, wfj j = true -> jsize j <= fuel ->
+  forallb is_ws pre = true -> forallb is_ws post = true -> loads fuel (pre ++ print j ++ post) = Some j.
+Proof.
+  intros j fuel pre post W Hf Hpre Hpost. unfold loads. rewrite (skip_ws_all pre _ Hpre). rewrite skip_ws_print by exact W.
+  rewrite (parse_print j fuel post W (ws_stop post Hpost) Hf).
+  rewrite <- (app_nil_r post). rewrite (skip_ws_all post [] Hpost). reflexivity.
+Qed.
